@@ -72,6 +72,9 @@ def arr3 (p : P α) : P (Arr3 α) := do
   let c ← p
   pure ⟨a, b, c⟩
 
+/-- binrw's `#[br(if(c))]`: read the field when `c` holds, else take the default -/
+def condP (c : Bool) (p : P α) (dflt : α) : P α := if c then p else pure dflt
+
 /-- `read_bool_from::<u8>` -/
 def bool8 : P Bool := do
   let x ← u8
@@ -216,7 +219,7 @@ def parseBoneTableV2 : P BoneTableV2 := do
   skip 2
   let boneCount ← u16
   let boneIndices ← count u16 boneCount.toNat
-  let padding ← if boneCount % 2 == 0 then u16 else pure 0
+  let padding ← condP (boneCount % 2 == 0) u16 0
   pure { boneCount, boneIndices, padding }
 
 def parseShape : P ShapeStruct := do
@@ -252,13 +255,13 @@ def parseModelData (fh : FileHeader) : P ModelData := do
   let terrainShadowSubmeshes ← count (takeN 12) header.terrainShadowSubmeshCount.toNat
   let materialNameOffsets ← count u32 header.materialCount.toNat
   let boneNameOffsets ← count u32 header.boneCount.toNat
-  let boneTables ← if v5 fh.version then count parseBoneTable header.boneTableCount.toNat else pure []
-  let boneTablesV2 ← if v6 fh.version then count parseBoneTableV2 header.boneTableCount.toNat else pure []
+  let boneTables ← condP (v5 fh.version) (count parseBoneTable header.boneTableCount.toNat) []
+  let boneTablesV2 ← condP (v6 fh.version) (count parseBoneTableV2 header.boneTableCount.toNat) []
   let shapes ← count parseShape header.shapeCount.toNat
   let shapeMeshes ← count parseShapeMesh header.shapeMeshCount.toNat
   let shapeValues ← count parseShapeValue header.shapeValueCount.toNat
-  let submeshBoneMapSize ← if v5 fh.version then u32 else pure 0
-  let submeshBoneMapSizeV2 ← if v6 fh.version then u16 else pure 0
+  let submeshBoneMapSize ← condP (v5 fh.version) u32 0
+  let submeshBoneMapSizeV2 ← condP (v6 fh.version) u16 0
   let mapCount : Nat :=
     if v6 fh.version then (submeshBoneMapSizeV2 / 2).toNat else (submeshBoneMapSize / 2).toNat
   let submeshBoneMap ← count u16 mapCount
